@@ -1,7 +1,7 @@
 """C21: dynamic circuits (MCM with reset / postselect, conditionals on measurement-value arithmetic, MCM statistics)
 executed with mcm_method deferred / tree-traversal (analytic) and one-shot (shots); plus the branch circuits of the
 independent reference (one exact circuit per outcome history) for the Coq exact simulator."""
-import sys, json, random, math, itertools, warnings
+import sys, math, json, random, math, itertools, warnings
 sys.path.insert(0, "/verif/harness")
 from qrules import *
 from qx import pyth_angle, exact_circuit_gallina
@@ -126,9 +126,34 @@ def js(x):
 
 cases = []
 ncase = 22 if tier == "quick" else 220
+A1, A2, A3 = 2 * math.atan2(4, 3), 2 * math.atan2(3, 4), 2 * math.atan2(12, 5)     # Pythagorean angles (exactly representable)
+CORPUS = [
+    # a condition on a LATER measurement combined with an earlier one (all branches of a two-level tree must be re-entered cleanly)
+    {"nw": 3, "nm": 2, "steps": [{"t": "g", "name": "RX", "params": [A1], "wires": [0]}, {"t": "mcm", "wire": 0, "reset": False, "postselect": None},
+                                 {"t": "g", "name": "RY", "params": [A2], "wires": [1]}, {"t": "mcm", "wire": 1, "reset": False, "postselect": None},
+                                 {"t": "cond", "pred": "m", "idx": [0], "name": "RX", "params": [A3], "wires": [2]},
+                                 {"t": "cond", "pred": "and", "idx": [0, 1], "name": "RY", "params": [A1], "wires": [2]}],
+     "meas": [{"k": "expval", "word": ["Z"], "wires": [2]}, {"k": "expval_mcm", "i": 0}]},
+    {"nw": 2, "nm": 3, "steps": [{"t": "g", "name": "RY", "params": [A2], "wires": [0]}, {"t": "mcm", "wire": 0, "reset": False, "postselect": None},
+                                 {"t": "g", "name": "RX", "params": [A1], "wires": [0]}, {"t": "mcm", "wire": 0, "reset": False, "postselect": None},
+                                 {"t": "g", "name": "RY", "params": [A3], "wires": [1]}, {"t": "mcm", "wire": 1, "reset": False, "postselect": None},
+                                 {"t": "cond", "pred": "xor", "idx": [1, 2], "name": "RX", "params": [A2], "wires": [0]},
+                                 {"t": "cond", "pred": "and", "idx": [0, 2], "name": "RZ", "params": [A1], "wires": [0]}],
+     "meas": [{"k": "expval", "word": ["X"], "wires": [0]}, {"k": "probs_mcm", "idx": [1, 2]}]},
+    # reset together with postselection on 1 (the wire must come back in |0>) and a gate on that wire afterwards
+    {"nw": 2, "nm": 1, "steps": [{"t": "g", "name": "RX", "params": [A1], "wires": [0]}, {"t": "mcm", "wire": 0, "reset": True, "postselect": 1},
+                                 {"t": "g", "name": "RY", "params": [A2], "wires": [0]}, {"t": "cond", "pred": "m", "idx": [0], "name": "RX", "params": [A3], "wires": [1]}],
+     "meas": [{"k": "expval", "word": ["Z"], "wires": [0]}, {"k": "expval", "word": ["Z"], "wires": [1]}, {"k": "expval_mcm", "i": 0}]},
+    {"nw": 2, "nm": 2, "steps": [{"t": "g", "name": "RY", "params": [A3], "wires": [1]}, {"t": "mcm", "wire": 1, "reset": True, "postselect": 0},
+                                 {"t": "g", "name": "Hadamard", "params": [], "wires": [1]}, {"t": "mcm", "wire": 1, "reset": True, "postselect": 1},
+                                 {"t": "g", "name": "RX", "params": [A1], "wires": [1]}],
+     "meas": [{"k": "probs", "wires": [1, 0]}]},
+]
 for ci in range(ncase):
     nw = rng.choice([1, 2, 2, 3])
     spec = gen_spec(nw, 3 if tier == "quick" else 5)
+    if ci < len(CORPUS):
+        spec = CORPUS[ci]
     case = {"spec": spec, "status": "ok"}
     cases.append(case)
     try:
